@@ -68,9 +68,7 @@ fn run_case(_kind: &str, idx: u64, rng: &mut Rng, mon: &mut Mon, _tier: Tier) {
     let c = match rng.usize(3) {
         0 => Constraints::new(from, to, w),
         1 => {
-            let mut c = Constraints::new([0.0; 6], [1.0; 6], w);
-            c.update_range(from, to);
-            c
+            crate::gen::via_update_range(rng, from, to, w)
         }
         _ => {
             // from_degrees: feed degrees and use the radians it computes as the reference limits
